@@ -18,8 +18,12 @@ import (
 	"net/netip"
 	"os"
 	"sort"
+	"runtime"
 	"strings"
 	"testing"
+	"time"
+
+	"github.com/eapache/channels"
 
 	"github.com/osrg/gobgp/v4/internal/pkg/table"
 	"github.com/osrg/gobgp/v4/pkg/packet/bgp"
@@ -129,6 +133,103 @@ type c01Scenario struct {
 	marker int
 	// oracle bookkeeping (C02): per peer, latest un-withdrawn announcement per key
 	latest []map[string]*c01Route
+	// best-path watcher (C02): events are read straight from the watcher's queue
+	bw       *watcher
+	bestSeen map[string]uint32 // prefix -> marker, rebuilt by replaying the notification stream
+}
+
+// c01WatchBest registers a best-path watcher without its pump goroutine, so that the harness
+// can read every notification synchronously from the queue notifyWatcher fills.
+func (sc *c01Scenario) watchBest() {
+	w := &watcher{s: sc.w.s, ch: channels.NewInfiniteChannel(), realCh: make(chan watchEvent, 1), filters: map[watchEventType]func(watchEvent) bool{}}
+	sc.w.s.watcherMu.Lock()
+	sc.w.s.watcherMap[watchEventTypeBestPath] = append(sc.w.s.watcherMap[watchEventTypeBestPath], w)
+	sc.w.s.watcherMu.Unlock()
+	sc.bw, sc.bestSeen = w, map[string]uint32{}
+}
+
+func (sc *c01Scenario) unwatchBest() {
+	s := sc.w.s
+	s.watcherMu.Lock()
+	l := s.watcherMap[watchEventTypeBestPath]
+	for i, v := range l {
+		if v == sc.bw {
+			s.watcherMap[watchEventTypeBestPath] = append(l[:i], l[i+1:]...)
+			break
+		}
+	}
+	s.watcherMu.Unlock()
+	sc.bw.ch.Close()
+	for range sc.bw.ch.Out() {
+	}
+}
+
+// replayBest applies every queued best-path notification, in order.
+func (sc *c01Scenario) replayBest() {
+	ch := sc.bw.ch
+	for {
+		select {
+		case o := <-ch.Out():
+			if ev, ok := o.(*watchEventBestPath); ok {
+				for _, p := range ev.PathList {
+					if p == nil {
+						continue
+					}
+					if p.IsWithdraw {
+						delete(sc.bestSeen, p.GetNlri().String())
+					} else {
+						sc.bestSeen[p.GetNlri().String()] = vwMarker(p.GetPathAttrs())
+					}
+				}
+			}
+			continue
+		default:
+		}
+		if ch.Len() > 0 {
+			runtime.Gosched()
+			continue
+		}
+		time.Sleep(50 * time.Microsecond)
+		if ch.Len() == 0 {
+			select {
+			case o := <-ch.Out():
+				if ev, ok := o.(*watchEventBestPath); ok {
+					for _, p := range ev.PathList {
+						if p == nil {
+							continue
+						}
+						if p.IsWithdraw {
+							delete(sc.bestSeen, p.GetNlri().String())
+						} else {
+							sc.bestSeen[p.GetNlri().String()] = vwMarker(p.GetPathAttrs())
+						}
+					}
+				}
+				continue
+			default:
+			}
+			return
+		}
+	}
+}
+
+// oracleBestStream (C02): the best-path notification stream replayed in order reproduces the
+// current best-path table.
+func (sc *c01Scenario) oracleBestStream(history []string) {
+	sc.replayBest()
+	want := map[string]uint32{}
+	for _, p := range sc.w.s.globalRib.GetBestPathList(table.GLOBAL_RIB_NAME, 0, []bgp.Family{bgp.RF_IPv4_UC}) {
+		want[p.GetNlri().String()] = vwMarker(p.GetPathAttrs())
+	}
+	for _, pf := range c01Prefixes {
+		if sc.bestSeen[pf] != want[pf] {
+			sc.o.fail("best-stream-replay!=best-table", map[string]any{"prefix": pf, "replayed_marker": sc.bestSeen[pf], "table_marker": want[pf], "history": append([]string{}, history...)})
+			sc.bestSeen[pf] = want[pf] // report each divergence once
+			if want[pf] == 0 {
+				delete(sc.bestSeen, pf)
+			}
+		}
+	}
 }
 
 func c01GenRoute(r *vRand, sc *c01Scenario, from *vwPeer) *c01Route {
@@ -368,6 +469,8 @@ func c01Run(t *testing.T, o *vOut, r *vRand, nOps int, idx int, addPathMode bool
 	w := newVWorld(t, 65000, "10.255.0.1")
 	defer w.stop()
 	sc := &c01Scenario{w: w, o: o, r: r}
+	sc.watchBest()
+	defer sc.unwatchBest()
 	o.op("world %d %d", w.as, c01U32(w.rid))
 	nPeers := 3 + r.intn(3)
 	peerLines := []string{}
@@ -460,6 +563,7 @@ func c01Run(t *testing.T, o *vOut, r *vRand, nOps int, idx int, addPathMode bool
 		}
 		sc.oracleC01(history)
 		sc.oracleC02(history)
+		sc.oracleBestStream(history)
 	}
 	for n := 0; n < nOps; n++ {
 		i := r.intn(len(w.peers))
